@@ -1,8 +1,11 @@
 //! C11: outputs fully determined by inputs, no stray writes.
 //! Flat-memory operations of C08 (vector level) and C09 are run as PAIRS from two different prior contents of the
 //! whole destination buffer (opcode 110000 + op, last vector = alternative destination); C07's DFT-domain records
-//! carry their own two-fill flags and are passed through.
+//! carry their own two-fill flags and are passed through; so are C05's HAL convolution records (5001..5004), which
+//! dump the whole multi-column destination next to its prior content.
 #![allow(dead_code)]
+#[path = "c05.rs"]
+mod c05;
 #[path = "c07.rs"]
 mod c07;
 #[path = "c08.rs"]
@@ -13,7 +16,8 @@ mod c09;
 use poulpy_verif_harness::rec::*;
 
 fn reads_dest(code: i64) -> bool {
-    matches!(code, 8102 | 8103 | 8105 | 8106 | 8107 | 8109 | 8110 | 8202 | 8203 | 9002 | 9004 | 9005 | 9007 | 9009 | 9011 | 9015 | 9017 | 9019)
+    matches!(code, 8102 | 8103 | 8105 | 8106 | 8107 | 8109 | 8110 | 8202 | 8203 | 9002 | 9004 | 9005 | 9007 | 9009 | 9011 | 9015 | 9017 | 9019
+        | 9103 | 9105 | 9107 | 9108 | 9110 | 9112 | 9114 | 9116)
 }
 
 fn in_col(n: usize, cols: usize, size: usize, col: usize, idx: usize) -> bool {
@@ -49,6 +53,8 @@ pub fn exec(r: &Rec) -> Out {
             (Ok(a), Ok(b)) => Ok(vec![a[0].clone(), b[0].clone()]),
             (Err(e), _) | (_, Err(e)) => Err(e),
         }
+    } else if (5000..6000).contains(&r.code) {
+        c05::exec(r)
     } else {
         c07::exec(r)
     }
@@ -61,6 +67,7 @@ pub fn generate(tier: &str, seed: u64) -> Vec<Rec> {
     base.extend(c09::generate(tier, seed.wrapping_add(9)));
     let mut out: Vec<Rec> = base.iter().filter_map(|r| pair(r, &mut rng)).collect();
     out.extend(c07::generate(tier, seed.wrapping_add(7)).into_iter().filter(|r| r.code < 7100));
+    out.extend(c05::generate(tier, seed.wrapping_add(5)).into_iter().filter(|r| (5001..=5004).contains(&r.code)));
     out
 }
 
